@@ -44,11 +44,14 @@ def fam(config, profile, only, scale=1.0, level="host"):
 def jobs_conf(tier, dispatching=False):
     # one family per property; host level, fast + checked. BLAKE and JH dispatch over ppv-lite86 back ends:
     # they are also run on every emulated level and the portable build (the full matrix is C03's business)
-    js = [J("std", "fast"), J("std", "checked", scale=0.5)]
+    if tier == "quick":
+        js = [J("std", "fast"), J("std", "checked", scale=0.5)]
+    else:
+        # the thorough volume is split over shards (derived seeds) so that it runs in parallel
+        js = [J("std", "fast", scale=0.25, shard=i) for i in range(4)] + [J("std", "checked", scale=0.25, shard=i) for i in range(2)]
+        js.append(J("std", "dev", scale=0.02))
     if dispatching:
         js += levels("std", "fast", 0.15) + [J("nosimd", "fast", scale=0.15)]
-    if tier != "quick":
-        js.append(J("std", "dev", scale=0.02))
     return js
 
 
